@@ -39,6 +39,9 @@ Cases ==
     {[m |-> "rigid", op |-> "sp", dim |-> 2, T |-> T, p |-> <<1,2,0>>, n |-> Normals2[k], qs |-> Queries2] : T \in Motions2, k \in 1..4} \cup
     {[m |-> "rigid", op |-> "sp", dim |-> 3, T |-> T, p |-> <<1,2,-1>>, n |-> Normals[k], qs |-> Queries3] : T \in Motions3, k \in 1..5} \cup
     {[m |-> "rigid", op |-> "curve", dim |-> 2, T |-> T, T2 |-> Mot2(3, 2), pts |-> c, fc |-> FALSE, ls |-> <<0, 1, 3, 4, 7>>, qs |-> Queries2] : T \in Motions2, c \in Curves2} \cup
+    \* vertex spacing between tol and tol*sqrt(2): construction (de-duplication) must not depend on the frame
+    {[m |-> "rigid", op |-> "curve", dim |-> 2, T |-> T, T2 |-> Mot2(3, 2), tol16 |-> 13, pts |-> <<P(0,0), P(1,0), P(1,1), P(3,1)>>, fc |-> FALSE, ls |-> <<1, 3, 5>>, qs |-> Queries2] : T \in Motions2} \cup
+    {[m |-> "rigid", op |-> "curve", dim |-> 3, T |-> T, T2 |-> Mot3(3, 4, 2), tol16 |-> 13, pts |-> <<<<0,0,0>>, <<1,0,0>>, <<1,0,1>>, <<1,2,1>>>>, fc |-> FALSE, ls |-> <<1, 3, 5>>, qs |-> Queries3] : T \in Motions3} \cup
     {[m |-> "rigid", op |-> "curve", dim |-> 3, T |-> T, T2 |-> Mot3(3, 4, 2), pts |-> c, fc |-> FALSE, ls |-> <<0, 1, 3, 4, 7>>, qs |-> Queries3] : T \in Motions3, c \in Curves3} \cup
     {[m |-> "rigid", op |-> "seg", dim |-> 2, T |-> T, a |-> <<1,1,0>>, b |-> <<4,5,0>>, qs |-> Queries2] : T \in Motions2} \cup
     {[m |-> "rigid", op |-> "mesh", dim |-> 3, T |-> T, vpos |-> BoxV, faces |-> BoxF, qs |-> MeshQ] : T \in Motions3} \cup
